@@ -1473,6 +1473,22 @@ class Interp:
             r = self.vec_mutator(cal, e, st)
             if r is not None:
                 return r
+        if cal.endswith('alloc::vec::Vec::<T, A>::truncate') and len(e['args']) == 1 and not self.places:
+            # vec.truncate(n) with a known n on a local vector whose elements are all listed (known octets, pushed / appended elements):
+            # the first n elements remain (std: "keeping the first len elements"; no effect when n >= the length)
+            recv = hirq.peel_refs(e['recv'])
+            if recv['k'] == 'Path' and recv.get('res') == 'local':
+                res, abn = self.seq(e['args'], st)
+                outs, handled = list(abn), True
+                for (k,), s1 in res:
+                    old = s1.env.get(recv['bind'], ('unk', 'vec'))
+                    els = listed_elems(old)
+                    if els is not None and k[0] == 'lit' and isinstance(k[1], int) and not isinstance(k[1], bool) and k[1] >= 0:
+                        outs.append(Out('val', UNIT, s1.set(recv['bind'], ('vec', tuple(els[:k[1]]))).event(('call', cal, (old, k), e))))
+                    else:
+                        handled = False
+                if handled:
+                    return outs
         if cal.endswith('alloc::vec::Vec::<T, A>::insert') and len(e['args']) == 2:
             # vec.insert(k, x) on a vector whose elements are known, at a literal position
             recv = hirq.peel_refs(e['recv'])
@@ -2341,6 +2357,21 @@ def ground(t):
     if t[0] == 'ctor':
         return all(ground(x) for x in t[2])
     return False
+
+def listed_elems(t):
+    """The element terms, in order, of a tracked vector term whose length is known: literal octets, a vector of listed elements, such
+    a vector + one pushed element, + the elements of another such sequence (extend / extend_from_slice); None otherwise."""
+    if t[0] == 'lit' and isinstance(t[1], bytes):
+        return [('lit', x) for x in t[1]]
+    if t[0] in ('vec', 'array'):
+        return list(t[1])
+    if t[0] == 'vecpush':
+        a = listed_elems(t[1])
+        return a + [t[2]] if a is not None else None
+    if t[0] == 'concat':
+        a, b = listed_elems(t[1]), listed_elems(t[2])
+        return a + b if a is not None and b is not None else None
+    return None
 
 def vec_truncate(c, n):
     """The content of vector term c after truncate(n)."""
